@@ -359,9 +359,10 @@ def correspond(res, rng, tier):
                               "pytype": types[name], "model_sem": ms, "model_rules": mt, "prog": p})
   # ---- stream 2 (exploration beyond the theorem's fragment; the property's own oracle, applied directly) ----
   n2 = 120 if tier == "quick" else 1500
-  xsrcs = [c01x.XGen(rng).gen() for _ in range(n2)]
+  fam = c01x.truthiness_family() + c01x.narrowing_family()   # deterministic families, always in full
+  xsrcs = fam + [c01x.XGen(rng).gen() for _ in range(n2)]
   xres = vmpool.analyze_many(xsrcs)
-  xs = {"programs": n2, "ran_to_completion": 0, "values_checked": 0, "annotations_outside_oracle": 0,
+  xs = {"programs": len(xsrcs), "family_modules": len(fam), "ran_to_completion": 0, "values_checked": 0, "annotations_outside_oracle": 0,
         "unparsable_stub(C05)": 0, "pytype_exception(C15)": 0, "oracle_failures": 0}
   for src, r in zip(xsrcs, xres):
     if "exception" in r:
@@ -383,7 +384,7 @@ def correspond(res, rng, tier):
     if c[1] > 3:
       nontrivial.add(src)
   stats["extended_stream"] = xs
-  res.cov["evaluations"] = n + n2
+  res.cov["evaluations"] = n + len(xsrcs)
   res.cov["distinct_nontrivial"] = len(nontrivial)
   res.cov["rule"] = ("seeded random F1 programs (assignments, nested if/else, displays, conditional/boolean expressions, "
                      "is None / isinstance tests, opaque conditions) analysed by the real io.generate_pyi; for every "
@@ -392,7 +393,10 @@ def correspond(res, rng, tier):
                      "analysed path; distinct = distinct sources. Stream 2 (exploration, outside the theorem): programs with "
                      "functions, lambdas, classes/multiple inheritance/methods/instance attributes, truthiness dunders, "
                      "container mutation, comprehensions, subscripts, builtin calls, try/except are run under CPython and every "
-                     "module-level value and instance attribute must be admitted by the real stub")
+                     "module-level value and instance attribute must be admitted by the real stub; it always contains two "
+                     "deterministic families in full: truth value through every placement of __len__/__bool__ in "
+                     "single/multiple/deep inheritance used in every condition position, and isinstance narrowing of every "
+                     "scalar/container kind against every builtin class plus unions of tuples of all length pairs")
   res.cov["distribution"] = stats
   res.add_samples([program_src(progs[0]), {"pyi": results[0].get("pyi", "")[:400]}])
   return disagreements
